@@ -330,4 +330,9 @@ class Action(LoggerProperty, argparse.Action):
         if not hasattr(self, "_check_type_kwargs"):
             self._check_type_kwargs = set(inspect.signature(self._check_type).parameters.keys())
         kwargs = {k: v for k, v in kwargs.items() if k in self._check_type_kwargs}
-        return self._check_type(value, **kwargs)
+        value = self._check_type(value, **kwargs)
+        if self.choices:  # argparse compares the raw string, see ArgumentParser._check_value
+            for val in value if isinstance(value, list) and self.nargs not in {None, "?"} else [value]:
+                if val not in self.choices:
+                    raise TypeError(f'Parser key "{self.dest}": {val!r} not among choices {self.choices}')
+        return value
